@@ -103,4 +103,52 @@ example : (⟨[(sb "a", sb "keep;"), (sb "OK", sb "stop;"), (sb "{5}", [])], som
 theorem sessions_stay_in_step (ops : List Op) (a b : Client) (h : SameC a b) : (runOps a ops).1 = (runOps b ops).1 :=
   (runOps_congr ops a b h).1
 
+/-! ## any number of replies, of any shape, in a row -/
+
+/-- a status reply with its status: `true` = OK, `false` = NO -/
+abbrev StatusReply := Bool × C09.NoReply
+
+def StatusReply.wire (sr : StatusReply) : Bytes := if sr.1 then sr.2.okWire else sr.2.wire
+def StatusReply.status (sr : StatusReply) : Reader.Status := if sr.1 then .OK else .NO
+
+/-- read `n` replies one after the other -/
+def readAll (nbl : Option Nat) : Nat → RState → Except RErr (List (Option Reader.Status) × RState)
+  | 0, st => .ok ([], st)
+  | n + 1, st =>
+    match Reader.readResponse nbl st with
+    | .error e => .error e
+    | .ok (resp, st1) =>
+      match readAll nbl n st1 with
+      | .error e => .error e
+      | .ok (l, st2) => .ok (resp.code :: l, st2)
+
+/-- **replies are consumed one at a time, whatever their number and shape**: with any list of OK / NO replies pending —
+    with or without response code and text, texts quoted or literal — that many reads return their statuses in order, each
+    read consuming exactly its own reply (a literal text and its CRLF included), and exactly what follows the last reply
+    stays pending.  No reply is ever taken for the answer to another command, however the bytes arrive -/
+theorem replies_are_read_one_at_a_time (nbl : Option Nat) (replies : List StatusReply) (hw : ∀ sr ∈ replies, sr.2.WF)
+    (st : RState) (rest : Bytes)
+    (hp : pending st = (replies.flatMap StatusReply.wire) ++ rest) :
+    ∃ st', readAll nbl replies.length st = .ok (replies.map (fun sr => some sr.status), st') ∧ pending st' = rest := by
+  induction replies generalizing st with
+  | nil => exact ⟨st, rfl, by simpa using hp⟩
+  | cons sr rest' ih =>
+    have hw1 := hw sr (by simp)
+    have hp' : pending st = sr.wire ++ ((rest'.flatMap StatusReply.wire) ++ rest) := by
+      rw [hp]; simp [List.flatMap_cons, List.append_assoc]
+    have step : ∃ st1 d, Reader.readResponse nbl st = .ok (⟨some sr.status, d, []⟩, st1) ∧
+        pending st1 = (rest'.flatMap StatusReply.wire) ++ rest := by
+      obtain ⟨b, r⟩ := sr
+      cases b with
+      | true =>
+        obtain ⟨st1, d, h1, h2, _, _⟩ := C09.every_ok_reply_is_read nbl st r hw1 _ (by simpa [StatusReply.wire] using hp')
+        exact ⟨st1, d, by simpa [StatusReply.status] using h1, h2⟩
+      | false =>
+        obtain ⟨st1, d, h1, h2, _, _⟩ := C09.every_no_reply_is_decoded nbl st r hw1 _ (by simpa [StatusReply.wire] using hp')
+        exact ⟨st1, d, by simpa [StatusReply.status] using h1, h2⟩
+    obtain ⟨st1, d, h1, hp1⟩ := step
+    obtain ⟨st2, h2, hp2⟩ := ih (fun x hx => hw x (by simp [hx])) st1 hp1
+    refine ⟨st2, ?_, hp2⟩
+    simp only [List.length_cons, readAll, h1, h2, List.map_cons]
+
 end C15
